@@ -14,13 +14,13 @@ from ..symx import Expander, TupleV, ListV
 from ..ncf import M
 from .. import ncf, anf
 from ..anf import R, Unsupported
-from .common import memo_obligations, dtype_hazard_obligations, path_statements, refresh_obligation, default_instance_obligations, struct_ob, guard, last_return, U
+from .common import cancellation_obligations, memo_obligations, dtype_hazard_obligations, path_statements, refresh_obligation, default_instance_obligations, struct_ob, guard, last_return, U
 from .gpm import gp_expander, refs, mob, REL
 from ..report import AnalysisError
 from ..term import Resolver, pmatch
 
 COV = "inference/gp/covariance.py"
-FLOORS = {"float-arithmetic": 1, "state-refreshed": 1, "components-not-shared": 1, "posterior-closed-form": 6, "factor-of": 1, "triangular-solves": 1, "kernel-result-shape": 2,
+FLOORS = {"difference-before-square": 2, "float-arithmetic": 1, "state-refreshed": 1, "components-not-shared": 1, "posterior-closed-form": 6, "factor-of": 1, "triangular-solves": 1, "kernel-result-shape": 2,
           "error-input-typestate": 3, "query-normalisation": 4}
 
 
@@ -135,6 +135,7 @@ def run(prog, tier):
 
     obs.append(refresh_obligation(prog, "state-refreshed", "GpRegressor", "set_hyperparameters"))
 
+    obs.extend(cancellation_obligations(prog, "difference-before-square", ['inference/gp/covariance.py', 'inference/gp/regression.py']))
     obs.extend(dtype_hazard_obligations(prog, "float-arithmetic", ['inference/gp/regression.py']))
 
     obs.extend(memo_obligations(prog, "cache-key", [prog.cls("GpRegressor")]))
